@@ -257,7 +257,8 @@ def facts_vmdk(rng):
     f.append(["str-roundtrip", repr((sorted(d.attr.items()), sorted(d.ddb.items()), [(e.access_mode, e.sectors, e.type, e.filename) for e in d.extents])),
               repr((sorted(d2.attr.items()), sorted(d2.ddb.items()), [(e.access_mode, e.sectors, e.type, e.filename) for e in d2.extents]))])
     # embedded descriptor of a hosted sparse extent (descriptor_offset / descriptor_size); it may fill its sectors to the last byte
-    if rng.random() < 0.5:
+    exact = rng.random() < 0.5
+    if exact:
         # the CID line goes last, unquoted and without a line end: the descriptor's last byte is the last digit of the CID
         lines_ = [ln for ln in text.rstrip("\n").split("\n") if not ln.startswith("CID=")]
         body = "\n".join(lines_ + [f"CID={cid}"])
@@ -265,7 +266,7 @@ def facts_vmdk(rng):
         head, rest = body.split("\n", 1)
         text = head + "\n" + "#" * padn + "\n" + rest     # (a comment line takes up the slack)
         assert len(text.encode("utf-8")) % 512 == 0 and text.endswith(cid)
-    vf, info = enc_vmdk.build_hosted([("D", 1)], [True], capacity=8, grain=8, gtes=4, desc=text, max_pos=2)
+    vf, info = enc_vmdk.build_hosted([("D", 1)], [True], capacity=8, grain=8, gtes=4, desc=text, max_pos=2, desc_slack=0 if exact else 1)
     v = VMDK(vf)
     emb = v.disks[0].descriptor
     f.append(["embedded.CID", cid, emb.attr.get("CID") if emb else None])
